@@ -55,7 +55,7 @@ the same error — same kind, same names and characters in its payload — and i
 `k` columns further right when it was on the first line, and unchanged otherwise. -/
 theorem error_moves_with_spaces (txt : Bytes) (hv : ValidUtf8 txt) (opt : Opt) (e : Err) (k : Nat)
     (hbom : Stream.startsWith ⟨0, txt⟩ Lit.bom = false)
-    (hdecl : Stream.startsWith ⟨0, txt⟩ Lit.xmlDecl = false)
+    (hdecl : Stream.startsWithXmlDecl Generated.tables ⟨0, txt⟩ = false)
     (h : parse Generated.tables txt opt = .err e) :
     parse Generated.tables (List.replicate k 32 ++ txt) opt = .err (e.mapPos (shPosSp k)) :=
   parse_shift_err Generated.tables (by decide) txt hv opt e k hbom hdecl h
@@ -64,7 +64,7 @@ theorem error_moves_with_spaces (txt : Bytes) (hv : ValidUtf8 txt) (opt : Opt) (
 returned with its row increased by exactly `k` and its column unchanged. -/
 theorem error_moves_with_line_breaks (txt : Bytes) (hv : ValidUtf8 txt) (opt : Opt) (e : Err) (k : Nat)
     (hbom : Stream.startsWith ⟨0, txt⟩ Lit.bom = false)
-    (hdecl : Stream.startsWith ⟨0, txt⟩ Lit.xmlDecl = false)
+    (hdecl : Stream.startsWithXmlDecl Generated.tables ⟨0, txt⟩ = false)
     (h : parse Generated.tables txt opt = .err e) :
     parse Generated.tables (List.replicate k 10 ++ txt) opt = .err (e.mapPos (shPosNl k)) :=
   parse_shift_err_nl Generated.tables (by decide) txt hv opt e k hbom hdecl h
